@@ -1176,6 +1176,32 @@ def rule_keyblob_options(ctx, g: Grammar) -> None:
     ctx.chk.units[DOC] = __import__("hashlib").sha256(text.encode()).hexdigest()[:16]
 
 
+def rule_legacy_mem_names(ctx, g: Grammar) -> None:
+    """C19.legacy-mem-names: the memory names of the command-file language (`enable qspi`, `erase sdcard`, `load ifr`) are resolved through
+    LEGACY_MEM_ID to labels of the MemId enumeration.  Every entry names a label that exists (otherwise the statement raises instead of
+    producing its command), and no two names resolve to the same label (otherwise one of them addresses the wrong memory)."""
+    MEM = "spsdk/mboot/memories.py"
+    m = ctx.m(MEM)
+    table_node = ctx.prog.module_consts(m).get("LEGACY_MEM_ID")
+    table = ctx.prog.fold(table_node, m) if table_node is not None else None
+    if not isinstance(table, dict) or len(table) < 8:
+        raise AnalysisError("C19.legacy-mem-names: LEGACY_MEM_ID does not fold to a dictionary")
+    em = ctx.enum_model(ctx.cls(MEM, "MemId"))
+    if em is None:
+        raise AnalysisError("C19.legacy-mem-names: MemId does not fold to an enum model")
+    labels = {mm.label: mm.tag for mm in em.members()}
+    seen: Dict[str, str] = {}
+    for name, label in table.items():
+        ok = label in labels
+        dup = seen.get(label)
+        ctx.chk.decide(ok and dup is None, "C19.legacy-mem-names", f"{MEM}::LEGACY_MEM_ID[{name!r}]", f"`{name}` resolves to MemId label {label!r} (id {labels.get(label)})",
+                       (f"`{name}` names the label {label!r}, which no MemId member has: a statement using it raises" if not ok else f"`{name}` and `{dup}` both resolve to {label!r}: one of them addresses the wrong memory"),
+                       "one existing label per name", A.loc(MEM, table_node))
+        seen.setdefault(label, name)
+    ctx.chk.floor("C19.legacy-mem-names", 10)
+    ctx.chk.units[MEM] = m.digest
+
+
 def rule_comment_token(ctx) -> None:
     """C19.comment-token: the block-comment token matches every minimal `/* ... */` comment in full (whatever stars it contains) and
     ends at the first terminator - otherwise statements between two comments are swallowed silently."""
@@ -1228,8 +1254,11 @@ def run(ctx) -> None:
     ctx.rule(rule_comment_token)
     ctx.rule(rule_delimited_literals, g)
     ctx.rule(rule_keyblob_options, g)
+    ctx.rule(rule_legacy_mem_names, g)
     from . import c04 as _c04
     ctx.rule(lambda c: c.borrow(_c04.rule_setters, "C04.jump-sp", "C19.jump-sp"))
+    # a pattern load becomes a FILL whose operand is the stated pattern: the word the command carries is decided by C04's rule
+    ctx.rule(lambda c: c.borrow(_c04.rule_fill_word, "C04.fill-word", "C19.fill-word"))
     ctx.chk.assumptions = ["SLY matches lexer patterns in definition order and resolves conflicts with the precedence tuple as documented",
                            "not decided: source/extern resolution, keyblob option semantics, the binary content of the generated commands (C04)"]
 
